@@ -142,7 +142,14 @@ func zzOsCreate(name string) (*os.File, error) {
 	return zzOsOpenFile(name, os.O_RDWR|os.O_CREATE|os.O_TRUNC, 0666)
 }
 
+// zzTempFails: the directory refuses new files (read-only directory, a config file bind-mounted alone, name too long)
+var zzTempFails bool
+
 func zzOsCreateTemp(dir, pattern string) (*os.File, error) {
+	if zzTempFails {
+		zzRecord("create-temp-failed")
+		return nil, &os.PathError{Op: "open", Path: dir, Err: zzErrNotExist}
+	}
 	if dir == "" {
 		dir = "/tmp"
 	}
@@ -382,12 +389,27 @@ func ZZ_C45_CrashDuringSave() {
 	}
 	want := zzSerialize(c)
 
+	// the one injected fault: the configuration directory may refuse to create any further file
+	zzTempFails = rt.Fork("directory-refuses-new-files")
+
 	err := c.writeFile()
 
-	// no I/O error is injected: the save itself must succeed and leave exactly the new configuration
-	rt.Assert(err == nil, "save-without-io-errors-succeeds")
 	final := zzSnaps[len(zzSnaps)-1]
-	rt.Assert(rt.And(final.exists, rt.EqBytes(final.data, want)), "completed-save-stores-the-new-configuration")
+	if !zzTempFails {
+		// no I/O error: the save itself must succeed and leave exactly the new configuration
+		rt.Assert(err == nil, "save-without-io-errors-succeeds")
+		rt.Assert(rt.And(final.exists, rt.EqBytes(final.data, want)), "completed-save-stores-the-new-configuration")
+	} else {
+		rt.Tag("directory", "refuses-new-files")
+		// the save may fail; if it reports success the new configuration must be in place, if it reports failure
+		// the previous one must be untouched — and at every crash point below the file is one of the two
+		if err == nil {
+			rt.Assert(rt.And(final.exists, rt.EqBytes(final.data, want)), "completed-save-stores-the-new-configuration")
+		} else {
+			rt.Assert(rt.And(final.exists == oldExists, rt.EqBytes(final.data, old)), "failed-save-leaves-the-previous-configuration")
+		}
+		rt.Reach("directory-refuses-new-files")
+	}
 	if zzWrites > 1 {
 		rt.Reach("several-writes")
 	}
